@@ -532,8 +532,12 @@ def seed_task(task, concurrency=2, dry_run=False, skip_geoms_for_last_levels=0,
               progress_logger=None, seed_progress=None, skip_uncached=False):
     if task.coverage is False:
         return
+    cache_refresh_before = task.tile_manager._refresh_before
     if task.refresh_timestamp is not None:
         task.tile_manager._expire_timestamp = task.refresh_timestamp
+        # the refresh_before of the task decides what is seeded again, not
+        # the refresh_before the cache is served with
+        task.tile_manager._refresh_before = {}
     task.tile_manager.minimize_meta_requests = False
 
     work_on_metatiles = True
@@ -559,3 +563,4 @@ def seed_task(task, concurrency=2, dry_run=False, skip_geoms_for_last_levels=0,
         raise
     finally:
         tile_worker_pool.stop()
+        task.tile_manager._refresh_before = cache_refresh_before
